@@ -14,8 +14,30 @@ from . import lib
 KINDS = ["Value", "Grad", "GradPlusSens", "Sens", "AddSens", "HessTimes", "ApproxHess"]
 
 
-def _validate(paths, jobs, timeout):
-    return lib.validate_parallel("Trace_PoissonLL", paths, jobs=jobs, timeout=timeout, heap="3g")
+def _validate_jobs(jobs, workers, timeout):
+    """jobs: [(label, module, path)] -> [(label, module, path, accepted, TlcResult, rejected_at)], validated concurrently"""
+    import concurrent.futures as cf
+
+    def one(j):
+        ok, r, at = lib.validate_trace(j[1], j[2], timeout=timeout, heap="3g")
+        return (j[0], j[1], j[2], ok, r, at)
+    with cf.ThreadPoolExecutor(max(1, workers)) as ex:
+        return list(ex.map(one, jobs))
+
+
+def _module_of(path):
+    """which trace specification a (replay) trace belongs to: decided by the keys of its first lines"""
+    head = ""
+    with open(path) as f:
+        for _ in range(3):
+            head += f.readline()[:4000]
+    if '"lm":' in head:
+        return "Trace_PoissonLLLm"
+    if '"patlak":' in head:
+        return "Trace_PoissonLLPatlak"
+    if '"ps":' in head or '"K":' in head or '"sw":' in head:
+        return "Trace_PoissonLLReal"
+    return "Trace_PoissonLL"
 
 
 def _context(recs, i):
@@ -48,7 +70,7 @@ def run(ctx):
     cfg = "MC_LLSetup" if q else "MC_LLSetup_thorough"
     r = lib.tlc("MC_LLSetup", cfg=cfg, workers=2, timeout=600, heap="3g", coverage=True)
     ctx.mc_must_pass(r, "set-up bookkeeping, every order of requests (%s)" % cfg, "MC_LLSetup")
-    for act in ("Request", "SetUpAgain"):
+    for act in ("Request", "SetUpAgain", "Setter"):
         if r.coverage.get(act, (0, 0))[0] == 0:
             raise lib.ModelFailure("MC_LLSetup: action %s never taken" % act)
     r = lib.tlc("MC_LLSetup", cfg="MC_LLSetup_reverted", workers=1, timeout=300, heap="2g")
@@ -57,37 +79,54 @@ def run(ctx):
     ctx.notes.append("MC_LLSetup Variant=reverted (guard of the value path before fix c8fce4c19): refuted by TLC as required")
 
     t1 = time.time()
-    # ---- 2. record
-    exe = lib.build_driver("c05_poissonll")
-    t2 = time.time()
+    # ---- 2. record.  Families: (label, trace module, traces, chunk size)
     scratch = os.path.join(ctx.work, "scratch")
     os.makedirs(scratch, exist_ok=True)
-    traces = []
+    fams = []
     if ctx.replay:
-        traces = [ctx.replay]
+        fams = [("replay", _module_of(ctx.replay), [ctx.replay], 4000)]
     else:
+        exe = lib.build_driver("c05_poissonll")
+        exe_real = lib.build_driver("c05_realproj")
+        exe_lm = lib.build_driver("c05_listmode")
+        t2 = time.time()
+        seam = []
         seeds = [ctx.seed] if q else [ctx.seed, ctx.seed + 1000, ctx.seed + 2000]
         for s in seeds:
             t = os.path.join(ctx.work, "opts-%d.ndjson" % s)
-            rc, out = lib.run_driver(exe, ["opts", t, scratch, 300 if q else 2000], env={"VERIF_SEED": str(s)}, timeout=900, allow_fail=True)
-            traces.append(t)
+            lib.run_driver(exe, ["opts", t, scratch, 300 if q else 2000], env={"VERIF_SEED": str(s)}, timeout=900, allow_fail=True)
+            seam.append(t)
         t = os.path.join(ctx.work, "orders.ndjson")
         lib.run_driver(exe, ["orders", t, scratch, 4 if q else 6], env={"VERIF_SEED": str(ctx.seed)}, timeout=900, allow_fail=True)
-        traces.append(t)
+        seam.append(t)
+        t = os.path.join(ctx.work, "setters.ndjson")
+        lib.run_driver(exe, ["setters", t, scratch, 1 if q else 6], env={"VERIF_SEED": str(ctx.seed)}, timeout=900, allow_fail=True)
+        seam.append(t)
+        fams.append(("seam", "Trace_PoissonLL", seam, 4000 if q else 12000))
+        t = os.path.join(ctx.work, "real.ndjson")
+        lib.run_driver(exe_real, ["run", t, scratch, 12 if q else 96], env={"VERIF_SEED": str(ctx.seed)}, timeout=900, allow_fail=True)
+        fams.append(("real", "Trace_PoissonLLReal", [t], 60 if q else 150))
+        t = os.path.join(ctx.work, "listmode.ndjson")
+        lib.run_driver(exe_lm, ["run", t, scratch, 40 if q else 400], env={"VERIF_SEED": str(ctx.seed)}, timeout=900, allow_fail=True)
+        fams.append(("lm", "Trace_PoissonLL", [t], 1500 if q else 4000))
+    traces = [t for f in fams for t in f[2]]
     for t in traces:
         if not os.path.exists(t) or os.path.getsize(t) == 0:
             raise lib.ModelFailure("no trace recorded: %s" % t)
 
     t3 = time.time()
     # ---- 3. validate (chunks start at a System line; every chunk is self-contained)
-    chunks = []
-    for t in traces:
-        chunks += lib.split_trace(t, os.path.join(ctx.work, "chunks"), maxlines=4000 if q else 12000, boundary="System")
-    res = _validate([c[0] for c in chunks], W, 1500)
-    ctx.notes.append("wall: model checks %.0fs, build %.0fs, recording %.0fs, trace validation %.0fs" % (t1 - t0, t2 - t1, t3 - t2, time.time() - t3))
-    seen = {"kinds": set(), "tof": set(), "norm": set(), "N": set(), "fill": set(), "flags": set()}
+    jobs = []
+    for (label, module, trs, maxlines) in fams:
+        for t in trs:
+            for c in lib.split_trace(t, os.path.join(ctx.work, "chunks"), maxlines=maxlines, boundary="System"):
+                jobs.append((label, module, c[0]))
+    res = _validate_jobs(jobs, W, 1500)
+    ctx.notes.append("wall: model checks %.0fs, recording %.0fs, trace validation %.0fs" % (t1 - t0, t3 - t1, time.time() - t3))
+    seen = {"kinds": set(), "tof": set(), "norm": set(), "N": set(), "fill": set(), "flags": set(), "refused": 0, "real_sw": set(), "real_kinds": set(), "lm": set()}
     nobj = 0
-    for (p, ok, r, at) in res:
+    famcount = {}
+    for (label, module, p, ok, r, at) in res:
         recs = lib.read_ndjson(p)
         ctx.transitions += r.generated
         ctx.states += r.distinct
@@ -100,29 +139,50 @@ def run(ctx):
             if e == "Instance":
                 inst = rec
                 nobj += 1
-                seen["tof"].add((rec["tof"], rec["tofSensAsked"]))
-                seen["norm"].add(rec["norm"])
-                seen["N"].add(rec["N"])
-                seen["fill"].add(rec["fill"])
-                for k in ("additive", "zero", "uss", "prior", "supplied", "cache", "tofNorm"):
-                    seen["flags"].add((k, rec[k]))
-                seen["flags"].add(("maxSeg", rec["maxSegAsked"]))
-                if nobj % 211 == 1:
-                    ctx.sample({k: rec[k] for k in ("tof", "tofSensAsked", "tofNorm", "additive", "norm", "zero", "maxSegAsked", "uss", "N", "prior", "supplied", "cache", "fill", "family")})
-            elif e in KINDS and inst is not None:
+                if label == "seam":
+                    seen["tof"].add((rec["tof"], rec["tofSensAsked"]))
+                    seen["norm"].add(rec["norm"])
+                    seen["N"].add(rec["N"])
+                    seen["fill"].add(rec["fill"])
+                    for k in ("additive", "zero", "uss", "prior", "supplied", "cache", "tofNorm"):
+                        seen["flags"].add((k, rec[k]))
+                    seen["flags"].add(("maxSeg", rec["maxSegAsked"]))
+                    if nobj % 211 == 1:
+                        ctx.sample({k: rec[k] for k in ("tof", "tofSensAsked", "tofNorm", "additive", "norm", "zero", "maxSegAsked", "uss", "N", "prior", "supplied", "cache", "fill", "family")})
+                elif label == "real":
+                    seen["real_sw"].add((tuple(rec["sw"]), rec["tof"], rec["tofSensAsked"]))
+                elif label == "lm":
+                    seen["lm"].add((rec["tof"], rec["disk"], rec["batch"] > 0, rec["uss"], rec["N"] > 1))
+            elif e in KINDS + ["ValueDiff"] and inst is not None:
                 ctx.evaluations += 1
-                seen["kinds"].add(e)
-                ctx.nontrivial((inst["tof"], inst["tofSensAsked"], inst["tofNorm"], inst["additive"], inst["norm"], inst["zero"], inst["maxSegAsked"],
-                                inst["uss"], inst["N"], inst["prior"], inst["supplied"], inst["family"] != 0, e, rec["pen"], rec["sub"] < 0))
-        bad = [ln for (ln, cls) in lib.unexplained(r)]
+                famcount[label] = famcount.get(label, 0) + 1
+                if rec.get("err"):
+                    seen["refused"] += 1
+                if label == "seam":
+                    seen["kinds"].add(e)
+                    ctx.nontrivial((inst["tof"], inst["tofSensAsked"], inst["tofNorm"], inst["additive"], inst["norm"], inst["zero"], inst["maxSegAsked"],
+                                    inst["uss"], inst["N"], inst["prior"], inst["supplied"], inst["family"] != 0, e, rec["pen"], rec["sub"] < 0))
+                else:
+                    if label == "real":
+                        seen["real_kinds"].add(e)
+                    ctx.nontrivial((label, str(inst.get("sw")), inst.get("tof"), inst.get("tofSensAsked"), inst.get("zero"), inst.get("maxSegAsked"), inst.get("uss"),
+                                    inst.get("N"), inst.get("norm"), e, rec.get("pen"), rec["sub"] < 0))
+        known_ids = {k["id"]: k for k in ctx.known}
+        bad = []
+        for (ln, cls) in lib.unexplained(r):
+            if cls in known_ids:
+                ctx.known_hits[cls] = known_ids[cls]["what"][:300]
+            else:
+                bad.append(ln)
         if bad:
             first = bad[0] - 1
             rp = os.path.join(ctx.work, "violation-" + os.path.basename(p))
             lib.write_ndjson(rp, _context(recs, first))
             kinds = sorted({recs[b - 1]["e"] for b in bad})
-            ctx.violation("%d recorded lines not explained by PoissonLL/LLSetup (%s), first: %s" % (
-                len(bad), ",".join(kinds), json.dumps({k: v for k, v in recs[first].items() if k not in ("bins", "rows", "cols")})[:260]), rp)
+            ctx.violation("%d recorded lines not explained by %s (%s), first: %s" % (
+                len(bad), module, ",".join(kinds), json.dumps({k: v for k, v in recs[first].items() if k not in ("bins", "rows", "cols", "ntcols")})[:260]), rp)
     ctx.traces = nobj
+    ctx.notes.append("requests validated per family: %s" % json.dumps(famcount, sort_keys=True))
     # ---- vacuity guards: the recorded executions must contain what the check claims to exercise
     if not ctx.replay:
         for t in traces:
@@ -133,8 +193,8 @@ def run(ctx):
                 raise lib.ModelFailure("trace %s is truncated (driver died outside a recorded call)" % t)
         missing = [k for k in KINDS if k not in seen["kinds"]]
         if (len(seen["tof"]) < 3 or len(seen["norm"]) < 5 or not {1, 2, 3, 4} <= seen["N"] or len(seen["fill"]) < 3 or missing
-                or len(seen["flags"]) < 18):
-            raise lib.ModelFailure("recorded traces do not cover the option space: %s missing=%s" % ({k: sorted(map(str, v)) for k, v in seen.items()}, missing))
+                or len(seen["flags"]) < 18 or seen["refused"] < 100 or len(seen["real_sw"]) < 4 or len(seen["real_kinds"]) < 6 or len(seen["lm"]) < 8):
+            raise lib.ModelFailure("recorded traces do not cover the option space: %s missing=%s" % ({k: (sorted(map(str, v)) if isinstance(v, set) else v) for k, v in seen.items()}, missing))
     ctx.extra["objects"] = nobj
     ctx.exhaustive = False
     ctx.assumptions = [
